@@ -195,6 +195,30 @@ example :
     a.defs = [0] ∧ b.defs = [1] ∧ shares a b = false ∧
     summary (formation [a, b] none) = some [(.interleaved, [1, 0])] := by decide +kernel
 
+/-- … and "inside its core" is containment in the core **location** (`cds.is_contained_by(core_location)`:
+    inside one of its parts), not a comparison with the core's smallest and largest coordinate: a CDS
+    that lies in no part of the core is not a defining gene — for an origin-spanning core
+    `[a, L) + [0, b)` in particular none of the genes between `b` and `a` is … -/
+theorem defining_gene_lies_inside_the_core (id : Nat) (loc core : Loc) (product : String) (sideloaded : Bool)
+    (genes : List Gene) (g : Nat) (h : g ∈ (mkProto id loc core product sideloaded genes).defs) :
+    ∃ x, x ∈ genes ∧ x.id = g ∧ locationContainsOther core x.loc = true ∧ locationContainsOther loc x.loc = true := by
+  cases sideloaded
+  · obtain ⟨x, hx, e, h1, h2, _⟩ := mem_mkProto_defs.1 h
+    exact ⟨x, hx, e, h2, h1⟩
+  · simp [mkProto, definitionCdses] at h
+
+/-- the seeded layout on a circular record of length 1000: an `NRPS` protocluster whose core
+    `[950, 1000) + [0, 50)` spans the origin (two core genes) and an `NRPS` protocluster at `[95, 135)`
+    whose core gene `[100, 130)` lies in the first one's neighbourhood but not in its core: no shared
+    defining gene; the extents overlap, so one NEIGHBOURING candidate and two singles -/
+example :
+    let genes : List Gene := [⟨0, .simple ⟨960, 990, .fwd⟩, ["NRPS"]⟩, ⟨1, .simple ⟨10, 40, .fwd⟩, ["NRPS"]⟩,
+                              ⟨2, .simple ⟨100, 130, .fwd⟩, ["NRPS"]⟩]
+    let a := mkProto 0 (.compound [⟨850, 1000, .fwd⟩, ⟨0, 150, .fwd⟩]) (.compound [⟨950, 1000, .fwd⟩, ⟨0, 50, .fwd⟩]) "NRPS" false genes
+    let b := mkProto 1 (.simple ⟨75, 155, .fwd⟩) (.simple ⟨95, 135, .fwd⟩) "NRPS" false genes
+    a.defs = [0, 1] ∧ b.defs = [2] ∧ shares a b = false ∧
+    summary (formation [a, b] (some 1000)) = some [(.neighbouring, [0, 1]), (.single, [0]), (.single, [1])] := by decide +kernel
+
 /-- … and a protocluster without defining genes (every sideloaded one) is in a chemical hybrid only
     as a protocluster whose core lies inside the connected core of a gene-sharing class it does not
     belong to — never through a "shared gene" (any record).  This is what reading the stored set
